@@ -136,8 +136,7 @@ from .. import conform, monpass, tlc  # noqa: E402
 from ..framework import Machinery  # noqa: E402
 
 NOSW = "NoSw"
-TRACE_SW = ("[DeferExpiryNotify |-> FALSE, DeferStopAllNotify |-> FALSE, DeferRebootFanout |-> FALSE, "
-            "IgnoreWhenUnwatched |-> FALSE, DeferWatchReplay |-> FALSE, DeferHandleOffer |-> FALSE]")
+TRACE_SW = "AllOff"
 
 
 def trace_consts():
